@@ -5,15 +5,61 @@ model-checked through spec/GenLex.tla (PDA = declarative grammar, strict within 
 depth overflow is its own state) and the same TLC run dumps every reachable string with the
 verdict the property requires; the Go harness replays each string, concretised several ways,
 through every JSON-consuming API of the real library.
+
+Typed destinations ("Unmarshal into any type"): every proper prefix of the well-formed documents of
+the binding universe (spec/GenBind.tla) decoded into the document's own typed destination must be
+rejected - GenLex's invariant PrefixFree (a document that opens with a container or a string and
+does not end in a blank has no proper prefix that is a document) is what makes every truncation
+malformed; encoding/json.Valid must agree on each prefix.
 """
 import json
 import os
 
 from .. import vf
-from . import lexcommon
+from . import lexcommon, bindcommon
 
 
 def check(ctx):
     cfgs = lexcommon.configs(ctx)
     summ = lexcommon.run_lex(ctx, cfgs, envs=[None])
-    return lexcommon.finish(ctx, summ, "model_checking")
+    typed = typed_prefixes(ctx)
+    return lexcommon.finish(ctx, summ, "model_checking", extra_cov={"typed_prefixes": typed})
+
+
+def typed_prefixes(ctx):
+    known = vf.load_known(ctx.prop)
+    if ctx.quick:
+        fams = ("leaf", "st1", "st1l", "emb", "opts", "mapkeys", "wrap1", "st2")
+        plan = [(f, (int(ctx.seed) + 1) % bindcommon.FAM_PARTS[f], bindcommon.FAM_PARTS[f]) for f in fams]
+        stride = 2
+    else:
+        plan = sorted(set((f, (int(ctx.seed) + k * 3) % n, n) for f, n in bindcommon.FAM_PARTS.items() for k in range(min(n, 6))))
+        stride = 1
+    rs = bindcommon.gen(ctx, plan)
+    sfile = os.path.join(ctx.work, "typedpfx.json")
+    vf.vh(ctx, ["bind", "-prefixes", "-dump", ",".join(r["dump"] for r in rs), "-out", sfile, "-seed", ctx.seed, "-stride", stride], timeout=7200)
+    for r in rs:
+        os.remove(r["dump"])
+    s = json.load(open(sfile))
+    for c in s.get("crashes") or []:
+        if c.startswith("unconfirmed"):
+            ctx.notes.append(c[:300])
+        else:
+            vf.violation(ctx, "typed prefix worker died: " + c[:200], {"kind": "crash", "detail": c[:3000]})
+    seen = {}
+    for b in s.get("bad") or []:
+        if not b["kind"].startswith("malformed_accepted"):
+            continue            # faults belong to C05
+        rec = dict(b)
+        if b["kind"].endswith("ge32"):
+            rec["kind"], rec["sig"] = "malformed_accepted", {"st": "run", "lx": "str", "tail": "ge32"}
+        fid = vf.match_known(known, rec)
+        if fid:
+            ctx.known_hits[fid] = ctx.known_hits.get(fid, 0) + 1
+        elif len(seen) < 10:
+            seen[b["sig"]] = 1
+            vf.violation(ctx, "Unmarshal into %s accepts the truncated document %s: %s" % (b["type"], b["text"], b["got"][:200]), rec)
+    if s["cases"] and s.get("oracle_disagreements", 0) > 0.005 * s["cases"]:
+        raise vf.Inconclusive("typed prefixes: encoding/json.Valid accepts %d prefixes the specification calls malformed" % s["oracle_disagreements"])
+    return {"families": [p[0] for p in plan], "cases": s["cases"], "decodes": s["evals"], "oracle_disagreements": s.get("oracle_disagreements", 0),
+            "states": sum(r["distinct"] for r in rs), "wall_s": s.get("wall_s")}
